@@ -1,3 +1,4 @@
+mod c17;
 mod chacha;
 mod guts;
 mod hashes;
@@ -46,6 +47,8 @@ fn main() {
         "digests" => hashes::drive_digests(&mut *out, arg(&args, "--family").expect("--family"), seed, thorough, arg(&args, "--cfg").unwrap_or("?")),
         "hash-script" => hashes::run_hash_script(&mut *out, arg(&args, "--script").expect("--script"), seed),
         "hash-rand" => hashes::drive_hash_histories(&mut *out, seed, thorough),
+        "c17" => c17::drive_c17(&mut *out, seed, thorough, arg(&args, "--family").expect("--family")),
+        "c17-stream" => c17::drive_c17_stream(&mut *out, arg(&args, "--which").expect("--which")),
         "tf" => tf::drive_tf(&mut *out, seed, thorough, arg(&args, "--cfg").unwrap_or("?")),
         "stream-end64" => chacha::drive_end64(&mut *out, seed, thorough),
         "stream-rand" => chacha::drive_histories(&mut *out, seed, thorough, true),
